@@ -21,6 +21,9 @@ def _linit(ctx, rep):
 
 def c01(ctx, rep):
     rules_effects.api_abi(ctx, rep)
+    rules_tables.word_storage(ctx, rep)
+    rules_effects.api_deps(ctx, rep)
+    rules_cmp.dispatch(ctx, rep)
     rules_cmp.nfkd_before_split(ctx, rep)
     rules_bounds.helper_contracts(ctx, rep)
     rules_bits.packing(ctx, rep, want=('layout', 'inverse'))
@@ -58,6 +61,7 @@ def c02(ctx, rep):
 
 def c03(ctx, rep):
     rules_effects.api_abi(ctx, rep)
+    rules_effects.api_deps(ctx, rep)
     rules_effects.state_reads(ctx, rep)
     rules_bounds.helper_contracts(ctx, rep)
     rules_bits.packing(ctx, rep, want=('layout',))
@@ -90,6 +94,8 @@ def c05(ctx, rep):
 
 
 def c06(ctx, rep):
+    rules_effects.who_may_call(ctx, rep, cfgs=['NsS'])
+    rules_bounds.byte_buffer_alignment(ctx, rep)
     rules_bits.storage(ctx, rep)
     rules_bits.storage_total(ctx, rep)
     rules_api.load_api(ctx, rep)
@@ -102,6 +108,7 @@ def c06(ctx, rep):
 
 
 def c09(ctx, rep):
+    rules_bounds.input_immutability(ctx, rep, cfgs=['NsS'])
     rules_cmp.nfkd_before_split(ctx, rep)
     rules_cmp.lazy_normaliser_semantics(ctx, rep)
     rules_cmp.dispatch(ctx, rep)
@@ -202,6 +209,7 @@ def c18(ctx, rep):
 
 
 def c07(ctx, rep):
+    rules_tables.word_storage(ctx, rep)
     rules_bounds.helper_contracts(ctx, rep)
     rules_tables.registry_api(ctx, rep)
     rules_cmp.dispatch(ctx, rep)
@@ -219,6 +227,8 @@ def c07(ctx, rep):
 
 
 def c17(ctx, rep):
+    rules_tables.word_storage(ctx, rep)
+    rules_effects.api_deps(ctx, rep)
     rules_tables.phrase_size(ctx, rep)
     rules_bounds.normaliser_buffers(ctx, rep)
     rules_bounds.helper_contracts(ctx, rep)
@@ -228,6 +238,8 @@ def c17(ctx, rep):
 
 
 def c08(ctx, rep):
+    rules_tables.word_storage(ctx, rep)
+    rules_bounds.input_immutability(ctx, rep, cfgs=['NsS'])
     rules_cmp.dispatch(ctx, rep)
     rules_cmp.nfkd_before_split(ctx, rep)
     rules_cmp.skip_normalised(ctx, rep)
@@ -258,6 +270,8 @@ def c11(ctx, rep):
 
 def c14(ctx, rep):
     rules_effects.api_abi(ctx, rep)
+    rules_tables.word_storage(ctx, rep)
+    rules_bounds.byte_buffer_alignment(ctx, rep, cfgs=ctx.configs('path') if ctx.tier == 'thorough' else None)
     rules_cmp.nfkd_before_split(ctx, rep)      # (includes TOK-1: no out-of-bounds access of the tokeniser on any buffer)
     rules_cmp.dispatch(ctx, rep)               # (includes CMP-8: no comparator reads past a terminator)
     rules_bounds.helper_contracts(ctx, rep)
